@@ -190,6 +190,30 @@ def stress_family(tier, seed, prop):
     return Family("stress", "stress", "StressTrace", runs, race=True)
 
 
+GRAVEYARD_MUTANTS = [("MCGraveyard_ignoreZero.cfg", "Inv_C08_Retain"), ("MCGraveyard_keepOnReinsert.cfg", "Inv_C08_NoTombstoneOfLive"),
+                     ("MCGraveyard_markSnapshot.cfg", "Inv_C08_Retain"), ("MCGraveyard_reuseRevision.cfg", "Inv_C07_Converge"),
+                     ("MCGraveyard_closeNoTrigger.cfg", "Live_C08_Drain")]
+
+
+def graveyard_design(tier):
+    """Graveyard.tla: the marking/collection algorithm provides what DB.tla demands of an iterator."""
+    quick = tier == "quick"
+    d = [design_check("Graveyard", "MCGraveyardQuick.cfg")]
+    if not quick:
+        d.append(design_check("Graveyard", "MCGraveyardLive.cfg", timeout=3000))
+        d += [dict(mutant_check("Graveyard", c, e), states=0, transitions=0) for c, e in GRAVEYARD_MUTANTS]
+    return d
+
+
+def graveyard_family(tier, rng):
+    """drv_db scripts, one per transition of the graph of whole API calls of Graveyard.tla (GenGraveyard.tla)."""
+    import db_gen
+    quick = tier == "quick"
+    hists, g = tlc_scripts("GenGraveyard", "GenGraveyard.cfg" if quick else "GenGraveyardDeep.cfg", rng,
+                           600 if quick else 20000, heap="6g", timeout=3000)
+    return Family("tlc-graveyard", "db", "DBTrace", [db_gen.from_graveyard(rng, h) for h in hists], g)
+
+
 def _db_prop(prop, mode, nq, nt, rule, nontrivial, extra_modes=(), tlc_gen=False):
     def fn(tier, seed, rng):
         import db_gen
@@ -200,6 +224,10 @@ def _db_prop(prop, mode, nq, nt, rule, nontrivial, extra_modes=(), tlc_gen=False
             s1, g1 = tlc_scripts("GenDB", "GenDB.cfg" if quick else "GenDBDeep.cfg", rng, 3000 if quick else 60000)
             fams.append(Family("tlc", "db", "DBTrace", s1, g1))
         for (m2, q2, t2) in extra_modes:
+            if m2 == "graveyard":
+                design += graveyard_design(tier)
+                fams.append(graveyard_family(tier, rng))
+                continue
             if m2 == "sched":
                 fams += sched_families(tier, seed, rng, prop, q2, t2, q2, t2)
                 design += impl_design(tier)
@@ -464,11 +492,11 @@ PROPS = {
                     "partial consumption, re-inserts after deletes, virtual-time graveyard collection in between; "
                     "family sched: an iterator consumer among concurrent writers (snapshots taken between the store of a new "
                     "root and the closing of the watch channels, partial then full consumption); "
-                    "non-trivial = Next after a delete", _nt_iter, extra_modes=(("gcwindow", 150, 3000), ("sched", 100, 2000))),
+                    "non-trivial = Next after a delete", _nt_iter, extra_modes=(("gcwindow", 150, 3000), ("graveyard", 0, 0), ("sched", 100, 2000))),
     "C08": _db_prop("C08", "c08", 400, 8000,
                     "as C07 with graveyard size observed (public Metrics) after virtual-time waits: lower bound always, "
                     "exact after quiescence; non-trivial = Next after a delete", _nt_iter,
-                    extra_modes=(("gcwindow", 200, 4000), ("sched", 100, 2000))),
+                    extra_modes=(("gcwindow", 200, 4000), ("graveyard", 0, 0), ("sched", 100, 2000))),
     "C09": _db_prop("C09", "c09", 300, 6000,
                     "as C03 plus Table.Revision on every source and ByRevision queries for bounds 0..8; non-trivial = "
                     ">= 2 writes", _nt_write, tlc_gen=True),
